@@ -345,7 +345,53 @@ def replay_reducer(r):
     return False, f"the call terminated: {out}"
 
 
-HANDLERS = {"prop": replay_prop, "heur": replay_heur, "split": replay_split, "reducer": replay_reducer}
+STACK_SCRIPT = r"""
+import sys
+sys.path.insert(0, %(repo)r)
+from nucs.problems.problem import Problem
+from nucs.solvers.backtrack_solver import BacktrackSolver
+import nucs.heuristics.heuristics as H
+from nucs.solvers.consistency_algorithms import CONSISTENCY_ALG_BC, CONSISTENCY_ALG_SHAVING
+height, nvars, heur, shaving = %(height)r, %(nvars)r, %(heur)r, %(shaving)r
+try:
+    s = BacktrackSolver(Problem([(0, 1)] * nvars), consistency_alg_idx=CONSISTENCY_ALG_SHAVING if shaving else CONSISTENCY_ALG_BC,
+                        dom_heuristic_idx=getattr(H, "DOM_HEURISTIC_" + heur.upper()), dom_heuristic_params=[[1, 1]] * nvars if heur == "min_cost" else [[]],
+                        stack_max_height=height, log_level="CRITICAL")
+    first = next(iter(s.solve()))
+    print("RETURNED first solution", first.tolist()[:8], "... depth", s.get_statistics()["SOLVER_CHOICE_DEPTH"])
+except Exception as e:
+    print("RAISED", type(e).__name__, e)
+"""
+
+
+def replay_stack(r):
+    """public-API scenario for a capacity finding: a chain of free 0/1 variables that needs more levels than the stack has
+    (or than the pointer type can count); reproduced iff the real solver does NOT raise"""
+    import signal
+    import subprocess
+
+    height = r["height"]
+    nvars = r.get("nvars") or (height + 1)
+    if r["kind"] in ("pointer-cannot-represent-top-level", "ctor-dtype") or height > 256:
+        nvars = max(nvars, 258)
+    code = STACK_SCRIPT % dict(repo=os.environ.get("NUSYM_REPO", "/repo"), height=height, nvars=nvars, heur=r.get("heuristic", "min_value"), shaving=bool(r.get("shaving")))
+    proc = subprocess.Popen([sys.executable, "-c", code], stdout=subprocess.PIPE, stderr=subprocess.STDOUT, text=True, start_new_session=True)
+    try:
+        out, _ = proc.communicate(timeout=float(os.environ.get("NUSYM_WATCHDOG_S", "60")))
+    except subprocess.TimeoutExpired:
+        os.killpg(proc.pid, signal.SIGKILL)
+        proc.wait()
+        return True, f"height={height} nvars={nvars}: no error raised, the call did not return within the watchdog"
+    out = out.strip()[-300:]
+    if "RAISED" in out:
+        # in interpreted mode numpy's own bounds check raises IndexError: that is not the engine reporting the problem
+        if "IndexError" in out or "OverflowError" in out:
+            return True, f"height={height} nvars={nvars}: only numpy's bounds check fired (absent from compiled code): {out}"
+        return False, f"height={height} nvars={nvars}: {out}"
+    return True, f"height={height} nvars={nvars}: no error raised (rc={proc.returncode}): {out}"
+
+
+HANDLERS = {"prop": replay_prop, "heur": replay_heur, "split": replay_split, "reducer": replay_reducer, "stack": replay_stack}
 
 
 def validate_prop(w):
